@@ -1,0 +1,19 @@
+//go:build verif
+
+package rtsp
+
+import "net"
+
+// Hooks for the external verification harness. Compiled only with `-tags verif`.
+
+// VerifHandleTcpConnect runs the accept handler on an already established connection.
+func (s *Server) VerifHandleTcpConnect(conn net.Conn) {
+	s.handleTcpConnect(conn)
+}
+
+// VerifSetCommandSessionWriteChanSize sets the write queue size of command sessions and returns the previous value.
+func VerifSetCommandSessionWriteChanSize(n int) int {
+	prev := serverCommandSessionWriteChanSize
+	serverCommandSessionWriteChanSize = n
+	return prev
+}
